@@ -61,11 +61,11 @@ package pogreb
 
 // DB.put hands index.put a function literal (contract in verif_contracts_put.go)
 //@ func (db *DB) put(sl slot, key []byte) (err error) [C01,C03,C06,C16]
-//@   requires inv: db == theDB() && key == theKey() && dbFull(db) && idxInLog(db) && idxFreeOK(db.index)
+//@   requires inv: db == theDB() && key == theKey() && dbFull(db) && idxInLog(db) && idxFreeOK(db.index) && db.index.level < 31
 //@   requires slot: slotInSeg(db.datalog, sl)
 //@   ensures inv: err == nil ==> dbInv(db)
 //@   ensures log: segmentsUntouched(db.datalog)
-//@   modifies any(index).freeBucketOffs, any(index).level, any(index).numKeys, any(index).numBuckets, any(index).splitBucketIdx, any(segmentMeta).DeletedKeys, any(segmentMeta).DeletedBytes, any(file).size, any(slotWriter).bucket, any(slotWriter).slotIdx, any(slotWriter).prevBuckets, any(bucketHandle).bucket, elems(*bucketHandle), fLen, fDur, fData
+//@   modifies any(index).freeBucketOffs, any(index).level, any(index).numKeys, any(index).numBuckets, any(index).splitBucketIdx, any(segmentMeta).DeletedKeys, any(segmentMeta).DeletedBytes, any(file).size, any(slotWriter).bucket, any(slotWriter).slotIdx, any(slotWriter).prevBuckets, any(bucketHandle).bucket, elems(*bucketHandle), elems(int64), fLen, fDur, fData
 
 //@ func (db *DB) sync() (err error) [C06,C15]
 //@   requires inv: dbInv(db)
@@ -84,7 +84,7 @@ package pogreb
 //@   modifies fDur, lockSt
 
 //@ func (db *DB) Put(key []byte, value []byte) (err error) [C01,C03,C06,C16]
-//@   requires inv: db == theDB() && key == theKey() && dbFull(db) && idxInLog(db) && idxFreeOK(db.index)
+//@   requires inv: db == theDB() && key == theKey() && dbFull(db) && idxInLog(db) && idxFreeOK(db.index) && db.index.level < 31
 //@   requires unlocked: lockSt[fieldaddr(db, mu)] == 0
 //@   at call put@2: hint log-after-append: dbInv(db)
 //@   at call put@2: hint index-files-after-append: idxFiles(db.index) && idxLH(db.index) && idxFreeOK(db.index)
